@@ -260,7 +260,7 @@ def run(ctx):
         hs = [float(2.0 ** ctx.rng.integers(-7, 0)) * float(gen.pick(ctx.rng, [1.0, 0.75, 1.5])) for _ in range(int(ctx.rng.integers(1, 3)))]
         interp_refine(ctx, cfg, d, field, u0s, t0, hs)
         if it % 2 == 0 and strat != "fixedinterval":
-            cfa = dataclasses.replace(cfg, q=min(cfg.q, 4), init="exact", damp=0.0)
+            cfa = dataclasses.replace(cfg, q=min(cfg.q, 4), init="exact", damp=0.0, constraint_init=False, diffuse=0, prior="iwp")
             fld = problems.random_field(ctx.rng, d, order, max_degree=1, linear=True)
             tol = float(10.0 ** ctx.rng.uniform(-6, -2))
             t1 = t0 + float(gen.pick(ctx.rng, [0.5, 1.0, 2.0]))
